@@ -5,8 +5,10 @@ import io
 import os
 import signal
 import sys
+import warnings
 import tempfile
 
+warnings.filterwarnings('ignore', category=SyntaxWarning)     # ast.literal_eval on fuzzed string literals
 REPO = os.environ.get('WAL_REPO', '/repo')
 if REPO not in sys.path:
     sys.path.insert(0, REPO)
